@@ -735,3 +735,84 @@ def alias_statements():
 
 def multi_schema(n):
     return "".join(f"SCHEMA m{i};\nENTITY e{i};\n  a : INTEGER;\nEND_ENTITY;\nEND_SCHEMA;\n" for i in range(n)).encode()
+
+
+# ------------------------------------------------------------------ statement nesting inside algorithm bodies
+def _stmt_open_close(kind, i):
+    if kind == "if":
+        return f"IF x > {i} THEN\n", "END_IF;\n"
+    if kind == "if_else":
+        return f"IF x > {i} THEN\n  r := {i};\nELSE\n", "END_IF;\n"
+    if kind == "repeat_incr":
+        return f"REPEAT i{i} := 1 TO 2;\n", "END_REPEAT;\n"
+    if kind == "repeat_while":
+        return f"REPEAT WHILE r < {i};\n", "END_REPEAT;\n"
+    if kind == "repeat_until":
+        return f"REPEAT UNTIL r > {i};\n", "END_REPEAT;\n"
+    if kind == "repeat_bare":
+        return "REPEAT;\n  IF r > 3 THEN\n    ESCAPE;\n  END_IF;\n", "END_REPEAT;\n"
+    if kind == "case":
+        return f"CASE x OF\n  {i} : r := 0;\n  OTHERWISE :\n", "END_CASE;\n"
+    if kind == "begin":
+        return "BEGIN\n", "END;\n"
+    if kind == "alias":
+        return f"ALIAS y{i} FOR r;\n", "END_ALIAS;\n"
+    raise ValueError(kind)
+
+
+STATEMENT_KINDS = ["if", "if_else", "repeat_incr", "repeat_while", "repeat_until", "repeat_bare", "case", "begin", "alias"]
+
+
+def nested_statements(kind, n, where="function"):
+    """valid schema: statements of one kind (or `mixed`) nested n deep in a function / procedure / rule body"""
+    kinds = [k for k in STATEMENT_KINDS if k != "alias"] if kind == "mixed" else [kind]
+    opens, closes = [], []
+    for i in range(n):
+        o, c = _stmt_open_close(kinds[i % len(kinds)], i)
+        opens.append(o)
+        closes.append(c)
+    body = "".join(opens) + "r := r + 1;\n" + "".join(reversed(closes))
+    ent = "ENTITY holder;\n  v : INTEGER;\nEND_ENTITY;\n"
+    if where == "function":
+        alg = f"FUNCTION f(x : INTEGER) : INTEGER;\n  LOCAL\n    r : INTEGER := 0;\n  END_LOCAL;\n{body}  RETURN (r);\nEND_FUNCTION;\n"
+    elif where == "procedure":
+        alg = f"PROCEDURE p(x : INTEGER; VAR r : INTEGER);\n{body}END_PROCEDURE;\n"
+    else:
+        alg = f"RULE ru FOR (holder);\n  LOCAL\n    r : INTEGER := 0;\n    x : INTEGER := 1;\n  END_LOCAL;\n{body}WHERE\n  wr1 : r >= 0;\nEND_RULE;\n"
+    return _sch(ent + alg)
+
+
+for _k in STATEMENT_KINDS + ["mixed"]:
+    FAMILIES["stmt_" + _k] = (lambda k: (lambda n: nested_statements(k, n)))(_k)
+    FAMILIES["stmt_rule_" + _k] = (lambda k: (lambda n: nested_statements(k, n, "rule")))(_k)
+FAMILIES["stmt_procedure_mixed"] = lambda n: nested_statements("mixed", n, "procedure")
+
+
+# ------------------------------------------------------------------ diagnostics that fill the -B message buffer
+def diag_fill(n_long, long_len, n_medium=0, medium_len=0):
+    """schema with n_medium undefined types whose names have medium_len characters followed by n_long with long_len:
+    every one raises a line-numbered diagnostic that quotes the name"""
+    attrs = [f"  m{i} : um{i}_" + "z" * max(0, medium_len - len(f"um{i}_")) + ";\n" for i in range(n_medium)]
+    attrs += [f"  l{i} : ul{i}_" + "y" * max(0, long_len - len(f"ul{i}_")) + ";\n" for i in range(n_long)]
+    return _sch("ENTITY a;\n" + "".join(attrs) + "END_ENTITY;\n")
+
+
+# ------------------------------------------------------------------ more contradictions / corner references
+CONTRADICTIONS.update({
+    "function_referenced_without_arguments": lambda: _sch("FUNCTION f(p : INTEGER) : INTEGER;\n  RETURN (p);\nEND_FUNCTION;\nENTITY a;\n  v : INTEGER;\nWHERE\n  w1 : v > f;\nEND_ENTITY;\n"),
+    "function_without_parameters_referenced": lambda: _sch("FUNCTION g : INTEGER;\n  RETURN (1);\nEND_FUNCTION;\nENTITY a;\n  v : INTEGER;\nWHERE\n  w1 : v > g;\nEND_ENTITY;\n"),
+    "procedure_used_as_value": lambda: _sch("PROCEDURE p(x : INTEGER);\nEND_PROCEDURE;\nENTITY a;\n  v : INTEGER;\nWHERE\n  w1 : v > p;\nEND_ENTITY;\n"),
+    "entity_used_as_value": lambda: _sch("ENTITY b;\nEND_ENTITY;\nENTITY a;\n  v : INTEGER;\nWHERE\n  w1 : v > b;\n  w2 : b.v = 1;\nEND_ENTITY;\n"),
+    "type_used_as_value": lambda: _sch("TYPE t = INTEGER;\nEND_TYPE;\nENTITY a;\n  v : INTEGER;\nWHERE\n  w1 : v > t;\nEND_ENTITY;\n"),
+    "function_called_with_function": lambda: _sch("FUNCTION f(p : INTEGER) : INTEGER;\n  RETURN (p);\nEND_FUNCTION;\nENTITY a;\n  v : INTEGER;\nDERIVE\n  d : INTEGER := f(f);\nEND_ENTITY;\n"),
+    "use_from_long_schema_name": lambda: ("SCHEMA s;\nUSE FROM " + "n" * 300 + ";\nENTITY a;\nEND_ENTITY;\nEND_SCHEMA;\n").encode(),
+    "reference_from_long_schema_name": lambda: ("SCHEMA s;\nREFERENCE FROM " + "n" * 5000 + " (x);\nENTITY a;\nEND_ENTITY;\nEND_SCHEMA;\n").encode(),
+    "repeat_without_control": lambda: nested_statements("repeat_bare", 1),
+})
+
+
+def use_from_long(n):
+    return ("SCHEMA s;\nUSE FROM " + "n" * n + ";\nENTITY a;\nEND_ENTITY;\nEND_SCHEMA;\n").encode()
+
+
+FAMILIES["use_from_long"] = use_from_long
